@@ -391,6 +391,10 @@ def run(ctx):
         check_batch(ctx, 3)
     check_reads(ctx)
     check_maintenance(ctx)
+    # a bulk ingestion takes effect as ONE step of the write order (its tables get a seqno above every write applied before and below every write
+    # applied after) only because it holds the journal lock across the tree ingestion: the obligation of C14, part of "point reads and scans agree"
+    from . import c14
+    c14.check_ingestion(ctx)
     for o in ctx.obligations:
         ctx.samples.append(o.as_dict())
     return ctx.finish()
